@@ -10,9 +10,10 @@ git diff -- ffcx > "$dst/patch.diff"
 cp demo_break.py "$dst/demo_break.py"; cp NOTES.md "$dst/NOTES.md" 2>/dev/null
 run_demo() { (cd "$wt" && PYTHONPATH="$wt" timeout 900 /venv/bin/python demo_break.py > "$1" 2>&1; echo $?); }
 with=$(run_demo "$dst/demo_with_change.log")
-git stash -q
+# (git stash is shared between worktrees of one repository: revert/re-apply the patch instead)
+git apply -R "$dst/patch.diff" || exit 2
 without=$(run_demo "$dst/demo_without_change.log")
-git stash pop -q
+git apply "$dst/patch.diff" || exit 2
 tests=$(cd "$wt" && PYTHONPATH="$wt" timeout 1800 /venv/bin/python -m pytest -q -p no:cacheprovider -n 6 test/ 2>&1 | tail -1)
 echo "demo_with_change_rc=$with demo_without_change_rc=$without tests: $tests"
 python3 - "$dst" "$with" "$without" "$tests" <<'PY'
